@@ -2,6 +2,7 @@
 from __future__ import annotations
 
 import ast
+import re
 
 from ..engine import AnalysisError, MechanismMissing, PropertySpec, norm
 from ..pyutil import call_name, calls, const_str, kwarg, literal, method_name
@@ -242,6 +243,35 @@ def r02_6(ctx, rep):
                    "a busy timeout of %s lets concurrent parse() calls fail with 'database is locked' instead of waiting" % (norm(t) if t is not None else "default"))
     if n < 2:
         raise MechanismMissing("R02.6", "fewer than 2 sqlite3.connect calls found")
+    # the same through the pragma (its unit is milliseconds, the connect keyword's is seconds)
+    consts = {t.id: st.value.value for st in mod.body if isinstance(st, ast.Assign) and isinstance(st.value, ast.Constant) for t in st.targets if isinstance(t, ast.Name)}
+    for c in ast.walk(mod):
+        if isinstance(c, ast.Call) and isinstance(c.func, ast.Attribute) and c.func.attr in ("execute", "executescript") and c.args:
+            a = c.args[0]
+            txt, ok_txt = "", True
+            if isinstance(a, ast.Constant) and isinstance(a.value, str):
+                txt = a.value
+            elif isinstance(a, ast.JoinedStr):
+                for v in a.values:
+                    if isinstance(v, ast.Constant):
+                        txt += str(v.value)
+                    elif isinstance(v, ast.FormattedValue) and isinstance(v.value, ast.Name) and v.value.id in consts:
+                        txt += str(consts[v.value.id])
+                    elif isinstance(v, ast.FormattedValue) and isinstance(v.value, ast.Constant):
+                        txt += str(v.value.value)
+                    else:
+                        txt += "?"
+            elif isinstance(a, ast.BinOp) or isinstance(a, ast.Call):
+                txt = norm(a)
+            m_ = re.search(r"busy_timeout\s*=\s*([^;\s'\")]+)", txt, flags=re.I)
+            if m_:
+                try:
+                    ms = float(m_.group(1))
+                except ValueError:
+                    ms = None
+                rep.ob("R02.6", PARSER + ":pragma", "PRAGMA busy_timeout = %s" % m_.group(1), ms is not None and ms >= 5000,
+                       "PRAGMA busy_timeout takes MILLISECONDS: %s shortens the wait for a lock from the 5000 ms the connection was opened with to %s ms, and concurrent "
+                       "first-time callers fail with 'database is locked'" % (m_.group(1), m_.group(1)))
 
 
 @SPEC.rule(
@@ -349,6 +379,46 @@ def r02_10(ctx, rep):
     once_per_process_key(ctx, rep, R)
 
 
+@SPEC.rule(
+    "R02.11",
+    "one connection per call: every connection parse() works with comes from a sqlite3.connect made in this very call (not out of a container "
+    "that outlives the call), and every path from that connect to a `return` passes its close() — sqlite3 connections belong to the thread that "
+    "opened them, so a connection remembered for `the next call` raises ProgrammingError in the next thread, and one that is never closed keeps its "
+    "file handle and journal state for the life of the process",
+)
+def r02_11(ctx, rep):
+    from ..cfg import CFG
+    R = "R02.11"
+    fn = ctx.func(PARSER, "parse", R)
+    site = PARSER + ":parse"
+    cfg = CFG(fn, R)
+    conns = [x for x in cfg.stmts() if isinstance(x.ast, ast.Assign) and any(call_name(c) == "sqlite3.connect" for c in calls(x.ast))]
+    if not conns:
+        raise MechanismMissing(R, "sqlite3.connect not found in parse()")
+    names = set()
+    for x in conns:
+        for t in x.ast.targets:
+            if isinstance(t, ast.Name):
+                names.add(t.id)
+            else:
+                names |= {n.id for n in ast.walk(t) if isinstance(n, ast.Name) and isinstance(n.ctx, ast.Store)}
+    stored = [norm(x.ast)[:70] for x in conns if any(not isinstance(t, ast.Name) for t in x.ast.targets) or len(x.ast.targets) > 1]
+    fetched = [norm(x.ast)[:70] for x in cfg.stmts() if isinstance(x.ast, ast.Assign) and any(isinstance(t, ast.Name) and t.id in names for t in x.ast.targets)
+               and not any(call_name(c) == "sqlite3.connect" for c in calls(x.ast))]
+    rep.ob(R, site, "the connection is made by this call and kept by nobody else", not stored and not fetched,
+           "%s — the connection object outlives the call (or comes from an earlier one)" % "; ".join((stored + fetched)[:3]))
+    closes = {x.id for x in cfg.stmts() if any(isinstance(c.func, ast.Attribute) and c.func.attr == "close" and isinstance(c.func.value, ast.Name) and c.func.value.id in names
+                                               for c in calls(x.ast))}
+    rets = [x for x in cfg.stmts() if isinstance(x.ast, ast.Return)]
+    bad = None
+    for cn in conns:
+        for r in rets:
+            if r.id in cfg.reachable(cn.id):
+                bad = bad or cfg.path(cn.id, r.id, avoid=closes | {c2.id for c2 in conns if c2.id != cn.id})
+    rep.ob(R, site, "every return after the connect passes close()", bool(closes) and bad is None,
+           "parse() can return with the connection still open", path=cfg.describe(bad) if bad else "")
+
+
 # -- seeded variants ---------------------------------------------------------
 from ._mut import delete_stmt_where, replace_const_str, replace_in_func  # noqa: E402
 
@@ -437,3 +507,17 @@ def _m_pub(mod):
         return False
 
     return mod if replace_in_func(mod, "parse", edit) else None
+
+
+@SPEC.mutant("connection kept for later calls", PARSER, "R02.11", "kept by nobody else")
+def _m_keep_conn(mod):
+    def edit(fn):
+        for i, st in enumerate(fn.body):
+            if isinstance(st, ast.Assign) and "sqlite3.connect" in norm(st.value) and isinstance(st.targets[0], ast.Name):
+                fn.body.insert(i + 1, ast.parse("parse.__dict__.setdefault('connections', {})[full_db_path] = conn").body[0])
+                fn.body.insert(i, ast.parse("conn = parse.__dict__.get('connections', {}).get(full_db_path)").body[0])
+                return True
+        return False
+
+    from ._mut import replace_in_func as _r
+    return mod if _r(mod, "parse", edit) else None
